@@ -356,6 +356,7 @@ func vhGrammarOf(t reflect.Type, unions map[reflect.Type][]reflect.Type) *rprod 
 type rcap struct {
 	field int
 	a, b  int           // raw token range of the capture
+	fst   int           // 1 + raw index of the first token the capture matched (0: none)
 	vals  []interface{} // string or *rnode
 }
 
@@ -368,6 +369,7 @@ type rnode struct {
 type rres struct {
 	st   int // 0 no match, 1 match, 2 fail
 	r    int
+	fst  int // 1 + raw index of the first token matched (0: none)
 	vals []interface{}
 	caps []rcap
 }
@@ -439,7 +441,7 @@ func (c *refctx) term(r int, m func(lexer.Token) bool) rres {
 		j++
 	}
 	if m(c.T[j]) {
-		return rres{st: 1, r: j + 1, vals: []interface{}{c.T[j].Value}}
+		return rres{st: 1, r: j + 1, fst: j + 1, vals: []interface{}{c.T[j].Value}}
 	}
 	return rres{st: 0, r: r}
 }
@@ -469,7 +471,7 @@ func (c *refctx) evalProd(p *rprod, r int) rres {
 		return rres{st: x.st, r: x.r}
 	}
 	n := &rnode{p: p, caps: x.caps, a: r, b: x.r}
-	return rres{st: 1, r: x.r, vals: []interface{}{n}}
+	return rres{st: 1, r: x.r, fst: x.fst, vals: []interface{}{n}}
 }
 
 func (c *refctx) eval(e *rx, r int) rres {
@@ -494,6 +496,9 @@ func (c *refctx) eval(e *rx, r int) rres {
 				return rres{st: 2, r: x.r}
 			}
 			out.r = x.r
+			if out.fst == 0 {
+				out.fst = x.fst
+			}
 			out.vals = append(out.vals, x.vals...)
 			out.caps = append(out.caps, x.caps...)
 		}
@@ -561,6 +566,9 @@ func (c *refctx) eval(e *rx, r int) rres {
 					break
 				}
 				out.r = x.r
+				if out.fst == 0 {
+					out.fst = x.fst
+				}
 				out.vals = append(out.vals, x.vals...)
 				out.caps = append(out.caps, x.caps...)
 				n++
@@ -575,15 +583,15 @@ func (c *refctx) eval(e *rx, r int) rres {
 		if x.st != 1 {
 			return rres{st: x.st, r: x.r}
 		}
-		cp := rcap{field: e.field, a: r, b: x.r, vals: x.vals}
-		return rres{st: 1, r: x.r, vals: []interface{}{"<parent>"}, caps: append(append([]rcap{}, x.caps...), cp)}
+		cp := rcap{field: e.field, a: r, b: x.r, fst: x.fst, vals: x.vals}
+		return rres{st: 1, r: x.r, fst: x.fst, vals: []interface{}{"<parent>"}, caps: append(append([]rcap{}, x.caps...), cp)}
 	case kSub:
 		x := c.evalProd(e.prod, r)
 		if x.st != 1 {
 			return rres{st: x.st, r: x.r}
 		}
-		cp := rcap{field: e.field, a: r, b: x.r, vals: x.vals}
-		return rres{st: 1, r: x.r, vals: []interface{}{"<parent>"}, caps: []rcap{cp}}
+		cp := rcap{field: e.field, a: r, b: x.r, fst: x.fst, vals: x.vals}
+		return rres{st: 1, r: x.r, fst: x.fst, vals: []interface{}{"<parent>"}, caps: []rcap{cp}}
 	case kNeg:
 		if c.T[c.nx(r)].EOF() {
 			return rres{st: 0, r: r}
@@ -593,7 +601,7 @@ func (c *refctx) eval(e *rx, r int) rres {
 			return rres{st: 2, r: r}
 		}
 		j := c.nx(r)
-		return rres{st: 1, r: j + 1, vals: []interface{}{c.T[j].Value}}
+		return rres{st: 1, r: j + 1, fst: j + 1, vals: []interface{}{c.T[j].Value}}
 	case kLA:
 		x := c.eval(e.kids[0], r)
 		m := x.st == 1
@@ -664,14 +672,17 @@ func (c *refctx) expect(n *rnode) *vnode {
 				f.b = true
 			}
 		case fTok:
-			// first token the capture matched (C01): leading elided tokens are not part of the match
-			if cp.b > cp.a {
-				f.tok = c.nx(cp.a)
+			// first token the capture matched (C01): elided tokens skipped on the way
+			// to it are not part of the match
+			if cp.fst > 0 {
+				f.tok = cp.fst - 1
 			}
 		case fToks:
 			f.toks = nil
-			for i := c.nx(cp.a); i < cp.b; i++ {
-				f.toks = append(f.toks, i)
+			if cp.fst > 0 {
+				for i := cp.fst - 1; i < cp.b; i++ {
+					f.toks = append(f.toks, i)
+				}
 			}
 		case fSubP, fSubV, fUnion:
 			f.subs = []*vnode{c.expect(cp.vals[0].(*rnode))}
